@@ -114,3 +114,76 @@ theorem call_calls (R : Renamer σ) (r : Run σ) (dir : APath) (src dst : PurePa
   | mk st' err => cases err <;> simp
 
 end Tempren
+
+namespace Tempren
+variable {σ : Type}
+
+section
+variable (R : Renamer σ) (J : Run σ → Prop)
+  (hJ : ∀ r dir src dst ov, J r → J (r.call R dir src dst ov).1)
+include hJ
+
+theorem resolveConflict_preserves_all (r : Run σ) (dir : APath) (src dst : PurePath) (strategy : Strategy)
+    (answers : List Answer) (h : J r) : J (resolveConflict R r dir src dst strategy answers).1 := by
+  cases strategy with
+  | stop => simpa [resolveConflict] using h
+  | ignore => simpa [resolveConflict] using h
+  | override =>
+    simp only [resolveConflict]
+    have hc := hJ r dir src dst true h
+    split <;> (rename_i heq; rw [heq] at hc; exact hc)
+  | manual =>
+    cases answers with
+    | nil => simpa [resolveConflict] using h
+    | cons a as =>
+      cases a with
+      | stop => simpa [resolveConflict] using h
+      | ignore => simpa [resolveConflict] using h
+      | override =>
+        simp only [resolveConflict]
+        have hc := hJ r dir src dst true h
+        split <;> (rename_i heq; rw [heq] at hc; exact hc)
+      | custom p =>
+        simp only [resolveConflict]
+        have hc := hJ r dir src p false h
+        split <;> (rename_i heq; rw [heq] at hc; exact hc)
+
+theorem secondPass_preserves_all (strategy : Strategy) :
+    ∀ (bl : List (APath × PurePath × PurePath)) (r : Run σ) (answers : List Answer),
+      J r → J (secondPass R strategy bl r answers).1 := by
+  intro bl
+  induction bl with
+  | nil => intro r as h; simpa [secondPass] using h
+  | cons x rest ih =>
+    intro r as h
+    obtain ⟨dir, src, dst⟩ := x
+    rw [secondPass]
+    have hc := hJ r dir src dst false h
+    split
+    · rename_i heq; rw [heq] at hc; exact ih _ _ hc
+    · rename_i heq
+      rw [heq] at hc
+      split
+      · have hr := resolveConflict_preserves_all R J hJ _ dir src dst strategy as hc
+        split
+        · rename_i heq2; rw [heq2] at hr; exact ih _ _ hr
+        · rename_i heq2; rw [heq2] at hr; exact hr
+      · exact hc
+
+/-- whatever every renamer call preserves (override or not) is preserved by every run -/
+theorem execute_preserves_all (st : σ) (files : List FileRec) (gen : Nat → Gen) (strategy : Strategy)
+    (answers : List Answer) (h0 : J { st := st }) : J (execute R st files gen strategy answers).1 := by
+  unfold execute
+  have h1 := firstPass_preserves R J (fun r dir src dst => hJ r dir src dst false) gen files 0 { st := st } [] h0
+  split
+  · rename_i heq; rw [heq] at h1; exact h1
+  · rename_i heq
+    rw [heq] at h1
+    rename_i r1 bl1
+    have h2 := secondPass_preserves_all R J hJ strategy bl1.reverse r1 answers h1
+    split
+    · rename_i heq2; rw [heq2] at h2; exact h2
+    · rename_i heq2; rw [heq2] at h2; exact h2
+end
+
+end Tempren
